@@ -427,7 +427,7 @@ Definition send_core (e : env) (host : bytes) (port : Z) (transport : bytes) (ti
       match alookup key (ps_table p2) with
       | None => mk_ctx (x_learned x) p2 (x_conns x) (x_world x) (x_outs x)
       | Some f =>
-          let p3 := if fin then remove_transport transport host port trans_id p2 else p2 in
+          let p3 := if fin then remove_transport transport (if fx_resolved_key (e_fx e) then ip else host) port trans_id p2 else p2 in
           let '(p4, cs, w, outs, ok, f') :=
             failover_send (e_li e) (lc_addr (e_lc e)) (pa_received_support (wire_proxy (e_lc e))) f b p3 (x_conns x) (x_world x) in
           let p5 := match alookup key (ps_table p4) with
@@ -586,7 +586,9 @@ Definition pm_conn (e : env) (tcp : option nat) (m2 : message) (p : pstate) : me
                     let '(m'', tid) := mtry s_client_transaction m' in
                     match tid with
                     | Ok (Some t) =>
-                        let '(p1, rk) := get_transport (now_s e) (s2b "tcp") host port t p in
+                        let host_r := if fx_resolved_key (e_fx e)
+                                      then match get_ip (e_cfg e) host with Some i => i | None => host end else host in
+                        let '(p1, rk) := get_transport (now_s e) (s2b "tcp") host_r port t p in
                         match rk with
                         | Ok key => (m'', Ok (set_primary key (PConn c (now_s e + 3600)%Z) p1))
                         | _ => (m'', Ok p1)
